@@ -473,7 +473,7 @@ def rand_lit(r):
     if k < 0.8:
         b = r.random() < 0.5
         return ("lit", "true" if b else "false", vB(b))
-    s = r.choice(["", "a", "b c", "x+y", "//", "/* */", "ä€", "1", ";", ","])
+    s = r.choice(["", "a", "b c", "x+y", "//", "/* */", "ä€", "1", ";", ",", "(", ")", "((", "C:\\", "\\", "a\"", "/*", "*/"])
     return ("lit", '"' + s.replace("\\", "\\\\").replace('"', '\\"') + '"', vS(s))
 
 
